@@ -22,7 +22,7 @@ pub fn mon() -> Mon {
     }
 }
 
-const OWNED: [&str; 6] = ["get-uuid", "get-version", "get-types", "no-response", "wrong-command", "malformed-response"];
+const OWNED: super::c13::Owned = super::c13::Owned { cats: &["get-uuid", "get-version", "get-types", "no-response", "wrong-command", "malformed-response"], cmds: &[0x03, 0x04, 0x05], must_answer: &[0x03, 0x04, 0x05] };
 
 const TRAFFIC: [(Letter, u32); 14] = [
     (Letter::SetEid, 6),
